@@ -458,7 +458,7 @@ class Main(Suite):
     go_cmd = "c37"
     coq_imports = "From GoGit Require Import Model.RevList."
     quick_n = 420
-    thorough_n = 6000
+    thorough_n = 3000
     coq_chunk = 150
 
     BUCKETS = [(3, "random"), (2, "skew"), (2, "crisscross"), (1, "equaltimes"), (1, "octopus"), (1, "chain"),
